@@ -96,31 +96,19 @@ func (e *Env) RWalk() {
 		}
 	}
 	e.Run.Analysed("walk child sites", nChildren)
-	e.Run.Floor("R-WALK", "child visit sites", nChildren, 90)
-	// frame: prologue, epilogue, Inspect adapter equal upstream's
-	e.RFork([]forkPair{
-		{load.PkgDst, "go/ast", "", "Walk", forkOpts{elideSwitch: true}},
-		{load.PkgDst, "go/ast", "inspector", "Visit", forkOpts{}},
-		{load.PkgDst, "go/ast", "", "Inspect", forkOpts{}},
-	})
-	// the frame itself, independent of upstream: first statement assigns v = v.Visit(node) and
-	// returns on nil; the statement after the switch is an unconditional v.Visit(nil).
+	e.Run.Floor("R-WALK", "child visit sites", nChildren, 70)
+	// the frame, decided semantically (independent of layout): before the switch the node is
+	// visited and a nil result prunes; after the switch an unconditional v.Visit(nil).
 	c := e.Sib.Ctx[load.PkgDst]
-	okPro := false
-	if len(w.Prologue) == 1 {
-		if is, ok := w.Prologue[0].(*ast.IfStmt); ok && is.Init != nil && is.Else == nil {
-			okPro = c.ExprStr(is.Cond) == "v == nil" && len(is.Body.List) == 1
-			if as, ok := is.Init.(*ast.AssignStmt); ok && len(as.Rhs) == 1 {
-				okPro = okPro && c.ExprStr(as.Lhs[0]) == "v" && c.ExprStr(as.Rhs[0]) == "v.Visit(node)"
-			} else {
-				okPro = false
-			}
-			if _, isRet := is.Body.List[0].(*ast.ReturnStmt); !isRet {
-				okPro = false
-			}
-		}
+	var pro []string
+	for _, st := range w.Prologue {
+		pro = append(pro, stmtNorm(c, st))
 	}
-	e.Run.Check("R-WALK", "Walk prologue: visit the node first, prune on nil", e.Prog.Pos(w.Func.Pos()), okPro, "Walk must start with `if v = v.Visit(node); v == nil { return }`")
+	p := strings.Join(pro, " ;; ")
+	p = strings.ReplaceAll(p, "return ;", "return;")
+	okPro := p == "if v = v.Visit(node); v == nil { return; }" || p == "v = v.Visit(node) ;; if v == nil { return; }"
+	e.Run.Check("R-WALK", "Walk prologue: visit the node first, prune on nil", e.Prog.Pos(w.Func.Pos()), okPro,
+		"before the switch Walk must do exactly: v = v.Visit(node); return if v == nil; found: "+p)
 	okEpi := false
 	if len(w.Epilogue) == 1 {
 		if es, ok := w.Epilogue[0].(*ast.ExprStmt); ok {
@@ -128,6 +116,60 @@ func (e *Env) RWalk() {
 		}
 	}
 	e.Run.Check("R-WALK", "Walk epilogue: v.Visit(nil) after the children", e.Prog.Pos(w.Func.Pos()), okEpi, "the statement after the switch must be an unconditional v.Visit(nil)")
+	// inspector.Visit returns the receiver iff f(node): evaluated over the single atom f(node)
+	pkg := e.Prog.Pkg(load.PkgDst)
+	if fd := load.FuncDecl(pkg, "inspector", "Visit"); fd != nil && fd.Body != nil {
+		recvName := fd.Recv.List[0].Names[0].Name
+		param := fd.Type.Params.List[0].Names[0].Name
+		atom := recvName + "(" + param + ")"
+		run := func(val bool) string {
+			var exec func(list []ast.Stmt) (string, bool)
+			exec = func(list []ast.Stmt) (string, bool) {
+				for _, st := range list {
+					switch x := st.(type) {
+					case *ast.ReturnStmt:
+						if len(x.Results) == 1 {
+							return c.ExprStr(x.Results[0]), true
+						}
+						return "?", true
+					case *ast.IfStmt:
+						g := parseGuard(c.ExprStr(x.Cond))
+						if !g.ok || x.Init != nil {
+							return "?", true
+						}
+						atoms := map[string]bool{}
+						collectAtoms(g.expr, atoms)
+						if len(atoms) != 1 || !atoms[atom] {
+							return "?", true
+						}
+						if evalGuard(g.expr, map[string]bool{atom: val}) {
+							if r, done := exec(x.Body.List); done {
+								return r, true
+							}
+						} else if el, ok := x.Else.(*ast.BlockStmt); ok {
+							if r, done := exec(el.List); done {
+								return r, true
+							}
+						}
+					default:
+						return "?", true
+					}
+				}
+				return "", false
+			}
+			r, _ := exec(fd.Body.List)
+			return r
+		}
+		t, f := run(true), run(false)
+		e.Run.Check("R-WALK", "inspector.Visit continues exactly when the callback says so", e.Prog.Pos(fd.Pos()), t == recvName && f == "nil",
+			fmt.Sprintf("when %s is true Visit returns %q (want the receiver), when false %q (want nil)", atom, t, f))
+	} else {
+		e.Run.Violation("R-WALK", "inspector.Visit exists", "", "missing")
+	}
+	if fd := load.FuncDecl(pkg, "", "Inspect"); fd != nil && fd.Body != nil {
+		ok := len(fd.Body.List) == 1 && stmtNorm(c, fd.Body.List[0]) == "Walk(inspector(f), node)"
+		e.Run.Check("R-WALK", "Inspect walks with the inspector adapter", e.Prog.Pos(fd.Pos()), ok, "expected Walk(inspector(f), node)")
+	}
 }
 
 // RApply: the child table of dstutil.apply equals Walk's; literals resolve to the right fields.
@@ -173,7 +215,7 @@ func (e *Env) RApply() {
 		}
 	}
 	e.Run.Analysed("apply child sites", n)
-	e.Run.Floor("R-APPLY", "apply/applyList call sites", n, 90)
+	e.Run.Floor("R-APPLY", "apply/applyList call sites", n, 70)
 	// default arm panics, nil case exists and is empty
 	c := e.Sib.Ctx[load.PkgDstutil]
 	e.Run.Check("R-APPLY", "apply default arm panics", e.Prog.Pos(a.Switch.Pos()), a.HasDefault && c.PanicsOnly(a.DefaultBody), "unknown node types must not be skipped silently")
